@@ -279,6 +279,100 @@ theorem form_rebuild_total (info : QV.Model.FormTree.Info) (ch : QV.Model.FormTr
 
 /-! ## non-vacuity -/
 
+/-! ## (ii') positions handed from the parser adapter to `Vec::insert` / `Vec::remove`
+
+`typedexpr.rs walk_stmt: body_statements.insert(d.position, &d.body)` and
+`tir/builder.rs visit_switch_statement: case_body_start_refs.remove(p)` are implicit panic sites whose guard is in
+another crate module: `SwitchStatement::with_cursor` must hand out `position ≤ cases.len()`.  It does, for EVERY sequence
+of child kinds the parser can produce (comments anywhere, error-recovery nodes, several defaults).  The variant of seeded
+change C07/1 (comments skipped after `enumerate()` counted them) does not: kernel-checked witness. -/
+
+/-- invariant of the clause loop: the enumerate index is the number of clauses consumed so far -/
+theorem clauseLoop_inv : ∀ (l : List ClauseKind) (i : Nat) (s s' : SwitchShape),
+    (s.defaultPos = none → i = s.cases) →
+    (∀ p, s.defaultPos = some p → p ≤ s.cases ∧ i = s.cases + 1) →
+    clauseLoop l i s = .ok s' →
+    ∀ p, s'.defaultPos = some p → p ≤ s'.cases := by
+  intro l
+  induction l with
+  | nil =>
+    intro i s s' _ h2 h p hp
+    simp [clauseLoop] at h
+    subst h
+    exact (h2 p hp).1
+  | cons k rest ih =>
+    intro i s s' h1 h2 h
+    cases k with
+    | case =>
+      simp only [clauseLoop] at h
+      refine ih (i + 1) _ s' ?_ ?_ h
+      · intro hn; simp at hn; have := h1 hn; simp; omega
+      · intro p hp; simp at hp; have := h2 p hp; simp; omega
+    | default =>
+      simp only [clauseLoop] at h
+      split at h
+      · cases h
+      · rename_i hsome
+        have hn : s.defaultPos = none := by
+          cases hd : s.defaultPos with
+          | none => rfl
+          | some q => simp [hd] at hsome
+        refine ih (i + 1) _ s' ?_ ?_ h
+        · intro hn'; simp at hn'
+        · intro p hp; simp at hp; have := h1 hn; simp; omega
+    | extra => simp [clauseLoop] at h
+    | other => simp [clauseLoop] at h
+
+/-- `SwitchDefault.position ≤ cases.len()` for every switch body the adapter accepts -/
+theorem switch_default_position_le_cases (children : List ClauseKind) (s : SwitchShape)
+    (h : switchWithCursor children = .ok s) : ∀ p, s.defaultPos = some p → p ≤ s.cases := by
+  unfold switchWithCursor at h
+  exact clauseLoop_inv _ 0 ⟨0, none⟩ s (by intro _; rfl) (by intro p hp; cases hp) h
+
+/-- `body_statements.insert(d.position, …)` in `walk_stmt` never panics -/
+theorem switch_insert_never_panics (children : List ClauseKind) (s : SwitchShape)
+    (h : switchWithCursor children = .ok s) : walkSwitchBodies s ≠ none := by
+  unfold walkSwitchBodies
+  cases hd : s.defaultPos with
+  | none => simp
+  | some p =>
+    have := switch_default_position_le_cases children s h p hd
+    simp [vecInsertLen, this]
+
+/-- `case_body_start_refs.remove(p)` in `visit_switch_statement` never panics -/
+theorem switch_remove_never_panics (children : List ClauseKind) (s : SwitchShape)
+    (h : switchWithCursor children = .ok s) : visitSwitchStarts s ≠ none := by
+  unfold visitSwitchStarts
+  cases hd : s.defaultPos with
+  | none => simp
+  | some p =>
+    have := switch_default_position_le_cases children s h p hd
+    simp [vecRemoveLen]; omega
+
+/-- comments do not change what the adapter returns (they are extras): the trivia oracle of the c07 stream, for this adapter -/
+theorem switch_comments_are_trivia (children : List ClauseKind) :
+    switchWithCursor children = switchWithCursor (children.filter (· ≠ .extra)) := by
+  unfold switchWithCursor
+  rw [List.filter_filter]
+  simp
+
+def counting_extras_full_statement : Prop :=
+  ∀ children s, switchWithCursorCountingExtras children = .ok s → walkSwitchBodies s ≠ none
+
+/-- seeded change C07/1: `switch (x) { /* c */ case 1: …; default: … }` is accepted with position 2 > 1 = cases.len():
+    `Vec::insert` panics ("insertion index (is 2) should be <= len (is 1)") -/
+theorem counting_extras_refuted : ¬ counting_extras_full_statement := by
+  intro h
+  exact h [.extra, .case, .default] ⟨1, some 2⟩ rfl (by decide)
+
+/-- default first / middle / last / absent, comments in between -/
+example : switchWithCursor [.extra, .case, .extra, .default, .case, .extra] = .ok ⟨2, some 1⟩ := rfl
+example : switchWithCursor [.default, .extra, .case] = .ok ⟨1, some 0⟩ := rfl
+example : switchWithCursor [.case, .case, .extra, .default] = .ok ⟨2, some 2⟩ := rfl
+example : switchWithCursor [.extra] = .ok ⟨0, none⟩ := rfl
+example : switchWithCursor [.default, .default] = .error .multipleDefaultLabels := rfl
+example : walkSwitchBodies ⟨1, some 2⟩ = none := by decide
+
 /-- `shortcut: Qt.Key_A` (an enum of another type on a QKeySequence property): diagnostic, not a panic -/
 example : buildExpr trivialEnv (.gadget 3) (some (.concrete (.enum 7))) (.enumSet ["Qt::Key_A"]) = .ok none := rfl
 /-- `shortcut: QKeySequence.Copy` -/
